@@ -1,6 +1,10 @@
 import Driver.Arith
 import Driver.Activation
 import Driver.Gas
+import Driver.Journal
+import Driver.Blob
+import Driver.Bytecode
+import Driver.Jump
 /-! Line-protocol driver: one request per line on stdin, one reply per line on stdout.
 Stateless components are dispatched on the first token. A stateful component `X` adds a field
 `x : Driver.X.St := Driver.X.St.init` to `DState`, resets it on `begin x …` and threads it through
@@ -10,6 +14,7 @@ open Driver
 structure DState where
   unit : Unit := ()
   gas : Driver.Gas.St := Driver.Gas.St.init
+  journal : Driver.Journal.St := Driver.Journal.St.init
   -- stateful component states go here
 
 def step (st : DState) (line : String) : DState × String :=
@@ -18,6 +23,11 @@ def step (st : DState) (line : String) : DState × String :=
   | "activation" :: r => (st, Activation.handle r)
   | "begin" :: "gas" :: r => let (s, out) := Driver.Gas.begin r; ({ st with gas := s }, out)
   | "gas" :: r => let (s, out) := Driver.Gas.handle st.gas r; ({ st with gas := s }, out)
+  | "begin" :: "journal" :: r => let (s, out) := Driver.Journal.begin r; ({ st with journal := s }, out)
+  | "j" :: r => let (s, out) := Driver.Journal.handle st.journal r; ({ st with journal := s }, out)
+  | "blob" :: r => (st, Blob.handle r)
+  | "bytecode" :: r => (st, Bytecode.handle r)
+  | "jump" :: r => (st, Jump.handle r)
   | _ => (st, "bad-op")
 
 partial def loop (hin hout : IO.FS.Stream) (st : DState) : IO Unit := do
